@@ -278,7 +278,8 @@ def format_sites(body):
     return sites
 
 
-def _const_bytes_through(body, o, depth=6):
+def _const_bytes_through(body, o, depth=8):
+    """constant byte string behind an operand, through copies, unsizing casts, re-borrows, `&LIT[..]` and as_slice/as_bytes."""
     for _ in range(depth):
         k = op_const(o)
         if k is not None:
@@ -287,7 +288,15 @@ def _const_bytes_through(body, o, depth=6):
         if p is None:
             return None
         d = body.single_def(p["l"])
-        if d is None or d[2] != "rv":
+        if d is None:
+            return None
+        if d[2] == "call":
+            t = d[3]
+            nm = t["f"].get("fn") or ""
+            full = t["f"].get("full") or ""
+            if (nm.endswith("ops::Index::index") and "RangeFull" in full) or nm.rsplit("::", 1)[-1] in ("as_slice", "as_bytes", "as_ref", "deref"):
+                o = t["args"][0]
+                continue
             return None
         rv = d[3]
         if rv["k"] == "use" or rv["k"] == "cast":
